@@ -9,4 +9,12 @@ trap 'git -C /repo checkout -- . ' EXIT
 for id in "$@"; do
   out=$(cd /verif && VERIF_SEED=${VERIF_SEED:-0} timeout 1800 ./check.sh $id ${TIER:-quick} 2>&1); code=$?
   echo "$id exit=$code $(echo "$out" | grep -E '^sig:' | head -2 | tr '\n' ' ' | cut -c1-260)"
+  # SAVE_SEED=<name>: keep the shrunk failing case as a regression seed (replays/seeds/<ID>-<name>.json)
+  if [ -n "${SAVE_SEED:-}" ] && [ "$code" = 1 ]; then
+    rp=$(echo "$out" | sed -n 's/^VIOLATION property=[A-Z0-9]* replay=//p' | head -1)
+    case "$rp" in
+      *timeouts_in_child_processes*|*udp_runtime_scenarios*|*real_thread_stress*|*explorer*|*/seeds/*|"") ;;
+      *) mkdir -p /verif/replays/seeds; cp "$rp" "/verif/replays/seeds/$id-$SAVE_SEED.json"; echo "   seed saved: replays/seeds/$id-$SAVE_SEED.json" ;;
+    esac
+  fi
 done
